@@ -574,6 +574,104 @@ Example interval_history_nontrivial :
 Proof. exact interval_history_example. Qed.
 Print Assumptions interval_history_nontrivial.
 
+(* ---- round j: note_name_to_pitch_spelling / note_name_to_midi_pitch as the code reads a name: the compiled
+   pattern (one letter A-G, greedy x b # group, greedy digit group) applied with .search, the sign group looked
+   up in SIGN_TO_ALTER (reflected: tab_sign_to_alter), the digit group read by int().  Model/C12_NoteName.v;
+   tied to the code by the correspondence stream "namesearch" of harness/props/c12.py. ---- *)
+From PV Require Import Model.C12_NoteName Proofs.C12_notename.
+From Coq Require Import Ascii NArith Decimal DecimalString.
+
+(* ALL texts: a successful search returns the groups of the LEFTMOST position at which an attempt of the pattern
+   succeeds; both groups are maximal (greedy) *)
+Theorem name_search_leftmost : forall n c a d, re_search n = Some (c, a, d) ->
+  exists pre rest, n = (pre ++ String c (a ++ d ++ rest))%string /\
+    is_step_char c = true /\ all_chars is_acc_char a = true /\ all_chars is_digit_char d = true /\
+    d <> EmptyString /\ starts_not is_digit_char rest = true /\
+    (forall p1 p2, pre = (p1 ++ p2)%string -> p2 <> EmptyString ->
+                   match_here (p2 ++ String c (a ++ d ++ rest)) = None).
+Proof. exact search_sound. Qed.
+Print Assumptions name_search_leftmost.
+
+(* ALL texts: the search rejects only a text in which no attempt succeeds at any position ... *)
+Theorem name_search_rejects_only_nameless : forall n, re_search n = None ->
+  forall pre s, n = (pre ++ s)%string -> match_here s = None.
+Proof. exact search_none. Qed.
+Print Assumptions name_search_rejects_only_nameless.
+
+(* ... so a text that holds letter, signs over x b #, digits anywhere is never rejected by the search *)
+Theorem name_search_finds : forall pre c a d rest,
+  is_step_char c = true -> all_chars is_acc_char a = true -> all_chars is_digit_char d = true ->
+  d <> EmptyString -> starts_not is_digit_char rest = true ->
+  exists g, re_search (pre ++ String c (a ++ d ++ rest)) = Some g.
+Proof. exact search_finds. Qed.
+Print Assumptions name_search_finds.
+
+(* the code's SIGN_TO_ALTER (as reflected in this run) counts one semitone per sign on every key over x b #
+   and reads the empty group as the natural *)
+Theorem impl_sign_table_one_semitone_per_sign : sign_table_ok tab_sign_to_alter = true.
+Proof. exact tab_sign_table_ok. Qed.
+Print Assumptions impl_sign_table_one_semitone_per_sign.
+
+(* ALL texts, every table that is sign_table_ok: whatever value the two functions give is twelve-tone arithmetic
+   of the leftmost name in the text -- step = its letter, alteration = one semitone per sign of its sign group,
+   octave = decimal value of its digit group (>= 0), MIDI pitch = (octave + 1) * 12 + base pitch class + alteration *)
+Theorem name_value_twelve_tone : forall tab n s v o, sign_table_ok tab = true ->
+  nn_spelling_with tab n = Some (s, v, o) ->
+  exists c a d u b, re_search n = Some (c, a, d) /\ s = String c EmptyString /\ In s steps7 /\
+    sign_value a = Some v /\
+    NilEmpty.uint_of_string d = Some u /\ o = Z.of_N (N.of_uint u) /\ 0 <= o /\
+    base_pc s = Some b /\ nn_midi_with tab n = Some ((o + 1) * 12 + b + v).
+Proof. exact nn_value_sound. Qed.
+Print Assumptions name_value_twelve_tone.
+
+(* inverse, EVERY octave >= 0, inside ANY surrounding text: the printed name of (step, alter -3..3, octave) is read
+   back as that spelling and as its MIDI pitch by the code's table, behind any text without a letter A-G and in front
+   of any text that does not begin with a digit *)
+Theorem name_read_printed_anywhere : forall s a o pre rest,
+  In s steps7 -> -3 <= a <= 3 -> 0 <= o ->
+  all_chars (fun c => negb (is_step_char c)) pre = true -> starts_not is_digit_char rest = true ->
+  nn_spelling_with tab_sign_to_alter (pre ++ note_name s a o ++ rest) = Some (s, a, o) /\
+  nn_midi_with tab_sign_to_alter (pre ++ note_name s a o ++ rest) = ps_to_midi s a o.
+Proof. intros s a o pre rest. exact (nn_read_printed tab_sign_to_alter s a o pre rest tab_sign_prints). Qed.
+Print Assumptions name_read_printed_anywhere.
+
+(* on whole strings of the grammar the search model and the whole-string model (parse_name, the one the tabulated
+   names are judged by) give the same spelling whenever the table accepts the sign group *)
+Theorem name_search_agrees_whole_string : forall tab n r r', sign_table_ok tab = true ->
+  parse_name n = Some r -> nn_spelling_with tab n = Some r' -> r' = r.
+Proof. exact nn_agrees_parse_name. Qed.
+Print Assumptions name_search_agrees_whole_string.
+
+Example name_search_example :
+  nn_spelling_with tab_sign_to_alter "xyAb G##007;C4"%string = Some ("G"%string, 2, 7) /\
+  nn_midi_with tab_sign_to_alter "xyAb G##007;C4"%string = Some 105 /\
+  nn_spelling_with tab_sign_to_alter "Cxb4"%string = None /\
+  nn_spelling_with tab_sign_to_alter "c4 H2 C#"%string = None.
+Proof. exact nn_embedded_example. Qed.
+Print Assumptions name_search_example.
+
+(* the statements discriminate: a search that gives up after the first failed attempt violates
+   name_search_rejects_only_nameless; an anchored match violates name_read_printed_anywhere; a table in which the
+   double sharp counts one semitone is not sign_table_ok and violates the conclusion of name_value_twelve_tone *)
+Example name_search_giveup_refuted :
+  re_search_giveup "AB4"%string = None /\ match_here "B4"%string <> None /\
+  re_search "AB4"%string = Some ("B"%char, EmptyString, "4"%string).
+Proof. exact search_giveup_refuted. Qed.
+Print Assumptions name_search_giveup_refuted.
+
+Example name_anchored_refuted :
+  re_match ("= " ++ note_name "F" 1 3)%string = None /\
+  re_search ("= " ++ note_name "F" 1 3)%string = Some ("F"%char, "#"%string, "3"%string).
+Proof. exact anchored_refuted. Qed.
+Print Assumptions name_anchored_refuted.
+
+Example name_bad_table_refuted :
+  sign_table_ok bad_sign_table = false /\
+  nn_spelling_with bad_sign_table "Cx4"%string = Some ("C"%string, 1, 4) /\
+  sign_value "x"%string = Some 2 /\ nn_midi_with bad_sign_table "Cx4"%string = Some 61.
+Proof. exact (conj bad_sign_table_not_ok bad_table_refuted). Qed.
+Print Assumptions name_bad_table_refuted.
+
 (* ---- O5 over the reals (depends on the standard library's real-number axioms) ---- *)
 From PV Require Import Proofs.C12_real.
 From Coq Require Import Reals.
